@@ -14,7 +14,7 @@ Inductive reach (Q : queues) : positive -> nat -> Prop :=
                      reach Q p k -> reach Q n (S k).
 
 Definition ShapeInv (c : cfg) (Q : queues) : Prop :=
-  is_Some (Q !! root) /\
+  (exists sr, Q !! root = Some sr /\ qparent sr = None) /\
   forall n s, Q !! n = Some s -> n <> root -> exists k, reach Q n k /\ Z.of_nat k <= max_depth c.
 
 Lemma is_top_some p : is_top (Some p) = true <-> p = root.
@@ -159,10 +159,12 @@ Proof.
   destruct (qparent s) as [p|] eqn:Hp.
   2:{ exists 1%nat. split; [|split; [lia|by left]].
       eapply reach_top; [by rewrite lookup_insert|by rewrite Hp2]. }
+  destruct (decide (n = root)) as [->|Hnroot]; [by rewrite bool_decide_eq_true_2 in H|].
+  rewrite (bool_decide_eq_false_2 (n = root)) in H by done.
   destruct (decide (p = root)) as [->|Hr].
   { exists 1%nat. split; [|split; [lia|left; split; [by apply is_top_some|done]]].
     eapply reach_top; [by rewrite lookup_insert|]. rewrite Hp2. by apply is_top_some. }
-  rewrite bool_decide_eq_false_2 in H by done.
+  rewrite (bool_decide_eq_false_2 (p = root)) in H by done.
   destruct (bool_decide (p = n)); [done|].
   destruct (depth_walk _ Q n (Some p)) as [v|rem] eqn:Hw; [subst; by apply depth_walk_not_allowed in Hw|].
   destruct (rem <? sub_height (S rem) Q n)%nat eqn:Hh; [done|]. apply Nat.ltb_ge in Hh.
@@ -222,7 +224,7 @@ Lemma admit_cu_allowed c Q n s old :
    match old with None => True | Some o => qparent o <> qparent s \/ same_resources o s = false end ->
      validate_resources Q n s = VAllowed).
 Proof.
-  unfold admit_cu. destruct (spec_ok s); simpl; [|done]. intros H. split; [done|].
+  unfold admit_cu, admit_cu_with. destruct (spec_ok s); simpl; [|done]. intros H. split; [done|].
   set (pc := match old with None => true | Some o => negb (bool_decide (qparent o = qparent s)) end) in *.
   assert (match old with None => True | Some o => qparent o <> qparent s end -> pc = true) as Hpc.
   { subst pc. destruct old; [|done]. intros Hne. by rewrite bool_decide_eq_false_2. }
@@ -260,24 +262,48 @@ Proof. by destruct v. Qed.
 
 (* ---------- every admitted request keeps the shape ---------- *)
 
+Lemma hier_root c Q s : validate_hier c Q root s = VAllowed -> qparent s = None.
+Proof.
+  unfold validate_hier. destruct (qparent s); [|done]. by rewrite bool_decide_eq_true_2.
+Qed.
+
+Lemma root_inv_step c Q r :
+  (exists sr, Q !! root = Some sr /\ qparent sr = None) ->
+  exists sr, apply_if_admitted c Q r !! root = Some sr /\ qparent sr = None.
+Proof.
+  intros (sr & Hsr & Hpr). unfold apply_if_admitted.
+  destruct (allowed (verdict_of c Q r)) eqn:Hv; [|by eauto]. apply allowed_eq in Hv.
+  destruct r as [n s|n s|n|n a]; simpl in *.
+  - destruct (Q !! n) as [o|] eqn:Hn; [by eauto|].
+    exists sr. rewrite lookup_insert_ne; [done|]. intros ->. congruence.
+  - destruct (Q !! n) as [o|] eqn:Hn; [|by eauto].
+    destruct (decide (n = root)) as [->|Hne]; [|exists sr; by rewrite lookup_insert_ne].
+    rewrite Hsr in Hn. inversion Hn; subst o.
+    exists (with_alloc (qalloc sr) s). rewrite lookup_insert. split; [done|]. simpl.
+    destruct (decide (qparent sr = qparent s)) as [Heq|Hne]; [congruence|].
+    apply admit_cu_allowed in Hv as (_ & Hh & _). by apply (hier_root c Q), Hh.
+  - apply admit_delete_allowed in Hv as (Hr & _). exists sr. by rewrite lookup_delete_ne.
+  - destruct (Q !! n) as [o|] eqn:Hn; [|by eauto].
+    destruct (decide (n = root)) as [->|Hne]; [|exists sr; by rewrite lookup_insert_ne].
+    rewrite Hsr in Hn. inversion Hn; subst o. exists (with_alloc a sr). by rewrite lookup_insert.
+Qed.
+
 Lemma shape_step c Q r :
   1 <= max_depth c -> ShapeInv c Q -> ShapeInv c (apply_if_admitted c Q r).
 Proof.
-  intros Hmax [Hroot Hinv]. unfold apply_if_admitted.
+  intros Hmax [Hroot Hinv]. split; [by apply root_inv_step|]. unfold apply_if_admitted.
   destruct (allowed (verdict_of c Q r)) eqn:Hv; [|done]. apply allowed_eq in Hv.
   destruct r as [n s|n s|n|n a]; simpl in *.
   - (* CREATE *)
     destruct (Q !! n) as [o|] eqn:Hn; [done|].
     apply admit_cu_allowed in Hv as (_ & Hh & _). specialize (Hh I).
     destruct (hier_allowed c Q n s (with_alloc 0 s) Hh Hmax eq_refl) as (dn & Hdn & Hle & _).
-    split; [by apply lookup_insert_is_Some'; right|].
     intros m sm Hm Hmr. destruct (decide (m = n)) as [->|Hne]; [by exists dn|].
     rewrite lookup_insert_ne in Hm by done.
     destruct (Hinv _ _ Hm Hmr) as (k & Hk & Hkle). exists k. split; [|done].
     by apply reach_insert_fresh.
   - (* UPDATE *)
     destruct (Q !! n) as [o|] eqn:Hn; [|done].
-    split; [by apply lookup_insert_is_Some'; right|].
     intros m sm Hm Hmr.
     assert (exists so, Q !! m = Some so) as [so Hso].
     { destruct (decide (m = n)) as [->|Hne]; [by exists o|]. rewrite lookup_insert_ne in Hm by done. by exists sm. }
@@ -293,13 +319,11 @@ Proof.
         -- exists (j + dn)%nat. split; [done|]. exact (Hbelow _ _ Hb).
   - (* DELETE *)
     apply admit_delete_allowed in Hv as (Hnr & _ & s & Hn & _ & Hkids).
-    split; [by rewrite lookup_delete_ne|].
     intros m sm Hm Hmr. apply lookup_delete_Some in Hm as [Hne Hm].
     destruct (Hinv _ _ Hm Hmr) as (k & Hk & Hkle). exists k. split; [|done].
     apply reach_delete_leaf; [|done..]. intros x sx Hx. by eapply children_nil.
   - (* status update *)
     destruct (Q !! n) as [o|] eqn:Hn; [|done].
-    split; [by apply lookup_insert_is_Some'; right|].
     intros m sm Hm Hmr.
     assert (exists so, Q !! m = Some so) as [so Hso].
     { destruct (decide (m = n)) as [->|Hne]; [by exists o|]. rewrite lookup_insert_ne in Hm by done. by exists sm. }
@@ -370,7 +394,8 @@ Proof.
   destruct (decide (n = root)) as [->|Hr]; [by rewrite bool_decide_eq_true_2|].
   rewrite (bool_decide_eq_false_2 (n = root)) by done. simpl. apply bool_decide_eq_true.
   destruct (shape_parent_exists c Q n s Hs Hn Hr) as [Ht|(p & ps & Hp & _ & Hq)].
-  - destruct (qparent s) as [p|]; simpl; [apply is_top_some in Ht; subst|]; apply Hs.
+  - destruct Hs as [(sr & Hsr & _) _].
+    destruct (qparent s) as [p|]; simpl; [apply is_top_some in Ht; subst|]; rewrite Hsr; eauto.
   - rewrite Hp. simpl. eauto.
 Qed.
 
@@ -696,25 +721,18 @@ Qed.
 Lemma validate_resources_allowed Q n s :
   validate_resources Q n s = VAllowed ->
   (forall p, qparent s = Some p -> p <> root ->
-     exists ps, Q !! p = Some ps /\ child_vs_ancestor Q s = VAllowed /\ siblings_sum Q n s ps p = VAllowed) /\
+     exists ps, Q !! p = Some ps /\ child_vs_ancestor Q n s = VAllowed /\ siblings_sum Q n s ps p = VAllowed) /\
   (children_of Q n = [] \/
    (children_of Q n <> [] /\ children_constraints Q s (children_of Q n) = VAllowed)).
 Proof.
-  unfold validate_resources. intros H. split.
+  unfold validate_resources, validate_resources_with. intros H. split.
   - intros p Hp Hr. rewrite Hp in H. rewrite bool_decide_eq_false_2 in H by done.
     destruct (Q !! p) as [ps|]; [|done]. exists ps. split; [done|].
-    destruct (child_vs_ancestor Q s); try done. split; [done|].
+    destruct (child_vs_ancestor Q n s); try done. split; [done|].
     destruct (siblings_sum Q n s ps p); done.
   - destruct (match qparent s with None => VAllowed | Some p => _ end); try done.
     destruct (children_of Q n) eqn:E; [by left|right; by split].
 Qed.
-
-(* requests the theorems about sums speak about: the root queue itself is never given a parent *)
-Definition req_wf (r : req) : Prop :=
-  match r with
-  | Create n s | Update n s => n = root -> qparent s = None
-  | _ => True
-  end.
 
 Lemma same_resources_eq o s : same_resources o s = true -> qguar o = qguar s /\ qdes o = qdes s.
 Proof.
@@ -772,19 +790,30 @@ Proof.
   - apply Hf; try done; [by right|]. intros d. by destruct (Hnns d) as (_ & ? & _).
 Qed.
 
+Lemma root_parent_none c Q n s old :
+  ShapeInv c Q -> Q !! n = old -> admit_cu c Q n s old = VAllowed -> n = root -> qparent s = None.
+Proof.
+  intros [(sr & Hsr & Hpr) _] Hold Hadm ->. apply admit_cu_allowed in Hadm as (_ & Hh & _).
+  rewrite Hsr in Hold. subst old.
+  destruct (decide (qparent sr = qparent s)) as [Heq|Hne]; [congruence|].
+  by apply (hier_root c Q), Hh.
+Qed.
+
 Lemma sum_step c Q r :
-  1 <= max_depth c -> req_wf r -> ShapeInv c Q -> PerQueueInv Q -> SumInv Q ->
+  1 <= max_depth c -> ShapeInv c Q -> PerQueueInv Q -> SumInv Q ->
   SumInv (apply_if_admitted c Q r).
 Proof.
-  intros Hmax Hwf Hshape Hper Hsum.
+  intros Hmax Hshape Hper Hsum.
   pose proof (shape_step c Q r Hmax Hshape) as Hshape'.
   unfold apply_if_admitted in *.
   destruct (allowed (verdict_of c Q r)) eqn:Hv; [|done]. apply allowed_eq in Hv.
   destruct r as [n s|n s|n|n a]; simpl in *.
   - destruct (Q !! n) as [o|] eqn:Hn; [done|].
     eapply (cu_sum c Q n s (with_alloc 0 s) None); eauto.
+    exact (root_parent_none c Q n s None Hshape Hn Hv).
   - destruct (Q !! n) as [o|] eqn:Hn; [|done].
     eapply (cu_sum c Q n s (with_alloc (qalloc o) s) (Some o)); eauto.
+    exact (root_parent_none c Q n s (Some o) Hshape Hn Hv).
   - destruct Hsum as [Hg Hd]. split; apply sumF_delete; try done.
     + intros m sm d Hm. by destruct (QueueOk_nonneg sm (Hper _ _ Hm) d) as (_ & _ & ?).
     + intros m sm d Hm. by destruct (QueueOk_nonneg sm (Hper _ _ Hm) d) as (_ & ? & _).
@@ -800,26 +829,6 @@ Proof.
     + intros m sm d Hm. by destruct (QueueOk_nonneg sm (Hper _ _ Hm) d) as (_ & ? & _).
     + intros Hr. simpl. by apply Hoself.
     + right. by exists o.
-Qed.
-
-(* ================= the invariant along histories ================= *)
-
-Definition TreeInv (c : cfg) (Q : queues) : Prop := ShapeInv c Q /\ PerQueueInv Q /\ SumInv Q.
-
-Lemma tree_step c Q r :
-  1 <= max_depth c -> req_wf r -> TreeInv c Q -> TreeInv c (apply_if_admitted c Q r).
-Proof.
-  intros Hmax Hwf (Hs & Hp & Hsum). split; [|split].
-  - by apply shape_step.
-  - by apply per_queue_step.
-  - by apply sum_step.
-Qed.
-
-Theorem tree_history c rs : forall Q0,
-  1 <= max_depth c -> TreeInv c Q0 -> Forall req_wf rs -> TreeInv c (run_history c Q0 rs).
-Proof.
-  unfold run_history. induction rs as [|r rs IH]; intros Q0 Hmax H0 Hwf; simpl; [done|].
-  inversion Hwf; subst. apply IH; [done| |done]. by apply tree_step.
 Qed.
 
 (* ---------- deletion ---------- *)
@@ -870,8 +879,8 @@ Qed.
 
 Lemma shape_okb_sound c Q : shape_okb c Q = true -> ShapeInv c Q.
 Proof.
-  unfold shape_okb. rewrite andb_true_iff, bool_decide_eq_true, map_allb_spec. intros [Hr H].
-  split; [done|]. intros n s Hn Hnr. specialize (H _ _ Hn).
+  unfold shape_okb, root_okb. rewrite andb_true_iff, map_allb_spec. intros [Hr H].
+  split; [destruct (Q !! root) as [sr|]; [|done]; apply bool_decide_eq_true in Hr; eauto|]. intros n s Hn Hnr. specialize (H _ _ Hn).
   rewrite (bool_decide_eq_false_2 (n = root)) in H by done. simpl in H.
   destruct (reach_in_sound _ _ _ _ Hn H) as (j & Hj & Hle). exists j. split; [done|].
   destruct (decide (0 <= max_depth c)); [|rewrite Z2Nat.nonpos in Hle by lia; pose proof (reach_pos _ _ _ Hj); lia].
@@ -929,12 +938,6 @@ Proof.
   split; intros p sp Hp Hr d Hv; by destruct (Hboth p sp d Hp Hr Hv).
 Qed.
 
-Lemma tree_okb_sound c Q : tree_okb c Q = true -> TreeInv c Q.
-Proof.
-  unfold tree_okb. rewrite !andb_true_iff. intros [[[Hs Hp] Hsum] _].
-  split; [by apply shape_okb_sound|]. split; [by apply per_okb_sound|by apply sums_okb_sound].
-Qed.
-
 (* ================= capability against the nearest ancestor ================= *)
 
 Definition capd (s : qspec) (d : positive) : Z := amount (qcap s) d.
@@ -982,11 +985,11 @@ Proof.
   unfold vis in Hv. apply negb_true_iff in Hv. rewrite Hv. done.
 Qed.
 
-Lemma child_vs_ancestor_allowed Q s d v :
-  child_vs_ancestor Q s = VAllowed -> vis d = true -> 0 < capd s d ->
+Lemma child_own_allowed Q s d v :
+  child_vs_ancestor_own Q s = VAllowed -> vis d = true -> 0 < capd s d ->
   nearest Q d (qparent s) v -> capd s d <= v.
 Proof.
-  unfold child_vs_ancestor. intros H Hv Hpos Hn.
+  unfold child_vs_ancestor_own. intros H Hv Hpos Hn.
   pose proof (first_bad_allowed _ H) as Hall.
   pose proof (res_names_in (qcap s) d Hv Hpos) as Hin.
   pose proof (Hall _ (proj2 (elem_of_list_In _ _) (in_map _ _ _ (proj1 (elem_of_list_In _ _) Hin)))) as Hg.
@@ -1154,34 +1157,28 @@ Proof.
   by apply (IH p ps).
 Qed.
 
-(* n := s2 after the hierarchical resource validation, n keeping its parent or having no children *)
+(* n := s2 after the hierarchical resource validation *)
 Lemma cap_insert c Q n s2 :
-  CapInv Q -> ShapeInv c Q -> ShapeInv c (<[n := s2]> Q) -> n <> root ->
-  (forall o, Q !! n = Some o -> qparent o = qparent s2 \/ children_of Q n = []) ->
+  CapInv Q -> ShapeInv c (<[n := s2]> Q) -> n <> root ->
   (forall d v, vis d = true -> 0 < capd s2 d -> nearest Q d (qparent s2) v -> capd s2 d <= v) ->
   (forall d x, vis d = true -> 0 < capd s2 d ->
      (exists k sk, Q !! k = Some sk /\ qparent sk = Some n /\ firstpos Q d k x) -> capd (snd x) d <= capd s2 d) ->
+  (forall d x v, vis d = true -> ~ 0 < capd s2 d ->
+     (exists k sk, Q !! k = Some sk /\ qparent sk = Some n /\ firstpos Q d k x) ->
+     nearest Q d (qparent s2) v -> capd (snd x) d <= v) ->
   CapInv (<[n := s2]> Q).
 Proof.
-  intros Hinv Hsh Hsh' Hnr Hold Hc1 Hc2 x sx d v Hx Hxr Hv Hpos Hnear.
+  intros Hinv Hsh' Hnr Hc1 Hc2 Hc3 x sx d v Hx Hxr Hv Hpos Hnear.
   destruct (decide (x = n)) as [->|Hne].
   { rewrite lookup_insert in Hx. inversion Hx; subst sx.
     apply (nearest_above_n c) in Hnear; [|done..]. by apply Hc1. }
   rewrite lookup_insert_ne in Hx by done.
   destruct (cap_chain _ _ _ _ _ _ Hnear) as [Hq|[Hpath Hcase]]; [by apply (Hinv x sx d v)|].
-  destruct (pn_end_exists c Q d n Hsh Hnr _ Hpath x sx Hx Hxr eq_refl) as [o Ho].
-  destruct (Hold o Ho) as [Hsame|Hnokids].
-  2:{ destruct (path_has_child _ _ _ _ Hpath x sx Hx eq_refl) as (k & sk & Hk & Hpk).
-      exfalso. by eapply children_nil. }
+  assert (exists k sk, Q !! k = Some sk /\ qparent sk = Some n /\ firstpos Q d k (x, sx)) as Hfp.
+  { apply (pn_firstpos Q d n (x, sx) _ Hpath x sx Hx eq_refl). by apply fp_self. }
   destruct Hcase as [[Hpos2 ->]|[Hnpos2 Hnear2]].
-  - apply (Hc2 d (x, sx) Hv Hpos2).
-    apply (pn_firstpos Q d n (x, sx) _ Hpath x sx Hx eq_refl). by apply fp_self.
-  - apply (nearest_above_n c) in Hnear2; [|done..]. rewrite <- Hsame in Hnear2.
-    destruct (pn_nearest Q d n o Ho Hnr _ Hpath) as [Hh Hu].
-    destruct (decide (0 < capd o d)) as [Hpo|Hnpo].
-    + pose proof (Hinv x sx d _ Hx Hxr Hv Hpos (Hh Hpo)).
-      pose proof (Hinv n o d v Ho Hnr Hv Hpo Hnear2). lia.
-    + apply (Hinv x sx d v Hx Hxr Hv Hpos). by apply Hu.
+  - by apply (Hc2 d (x, sx) Hv Hpos2).
+  - apply (nearest_above_n c) in Hnear2; [|done..]. by apply (Hc3 d (x, sx) v).
 Qed.
 
 Lemma children_cap_allowed Q s kids d x k sk :
@@ -1201,25 +1198,74 @@ Proof.
   pose proof (subtree_max_ge Q d Hv k x Hf _ _ _ Hk Hm'). lia.
 Qed.
 
+Lemma foldr_names_spec (g : positive * qspec -> option (list positive)) (h : positive * qspec -> list positive)
+      (kids : list (positive * qspec)) l :
+  foldr (fun c acc => match g c, acc with
+                      | Some a, Some b => Some (h c ++ a ++ b)
+                      | _, _ => None
+                      end) (Some []) kids = Some l ->
+  forall c, c ∈ kids -> exists a, g c = Some a /\ (forall d, d ∈ h c \/ d ∈ a -> d ∈ l).
+Proof.
+  revert l. induction kids as [|k kids IH]; intros l H c Hc; [by apply elem_of_nil in Hc|].
+  simpl in H. destruct (g k) as [a|] eqn:Hg; [|done].
+  destruct (foldr _ _ kids) as [b|] eqn:Hb; [|done]. inversion H; subst l.
+  apply elem_of_cons in Hc as [->|Hc].
+  - exists a. split; [done|]. intros d [Hd|Hd]; rewrite !elem_of_app; auto.
+  - destruct (IH b eq_refl c Hc) as (a' & Ha' & Hin). exists a'. split; [done|].
+    intros d Hd. rewrite !elem_of_app. right. right. by apply Hin.
+Qed.
+
+(* every name with a first positive capability below k is collected *)
+Lemma desc_names_in Q d : vis d = true -> forall k x, firstpos Q d k x ->
+  forall fuel n sk l, Q !! k = Some sk -> qparent sk = Some n ->
+  desc_names fuel Q n = Some l -> d ∈ l.
+Proof.
+  intros Hv k x H. induction H as [c sc Hc Hpos|c sc c' sc' x Hc Hpos Hc' Hp H IH]; intros fuel n sk l Hk Hpk Hl.
+  - rewrite Hc in Hk. inversion Hk; subst sk. destruct fuel; simpl in Hl; [done|].
+    destruct (foldr_names_spec (fun c0 => desc_names fuel Q (fst c0))
+                (fun c0 => res_names (new_resource (qcap (snd c0)))) _ _ Hl (c, sc)) as (a & _ & Hin);
+      [by apply elem_children|].
+    apply Hin. left. simpl. by apply res_names_in.
+  - rewrite Hc in Hk. inversion Hk; subst sk. destruct fuel; simpl in Hl; [done|].
+    destruct (foldr_names_spec (fun c0 => desc_names fuel Q (fst c0))
+                (fun c0 => res_names (new_resource (qcap (snd c0)))) _ _ Hl (c, sc)) as (a & Ha & Hin);
+      [by apply elem_children|].
+    apply Hin. right. simpl in Ha. by apply (IH fuel c sc' a).
+Qed.
+
+Lemma child_desc_allowed Q n s d x v k sk :
+  child_vs_ancestor_desc Q n s = VAllowed -> vis d = true -> ~ 0 < capd s d ->
+  Q !! k = Some sk -> qparent sk = Some n -> firstpos Q d k x ->
+  nearest Q d (qparent s) v -> capd (snd x) d <= v.
+Proof.
+  unfold child_vs_ancestor_desc. intros H Hv Hnpos Hk Hpk Hf Hn.
+  destruct (desc_names (fuel_of Q) Q n) as [names|] eqn:Hnames; [|done].
+  pose proof (desc_names_in Q d Hv k x Hf _ _ _ _ Hk Hpk Hnames) as Hd.
+  pose proof (first_bad_allowed _ H) as Hall.
+  pose proof (Hall _ (proj2 (elem_of_list_In _ _) (in_map _ _ _ (proj1 (elem_of_list_In _ _) Hd)))) as Hg.
+  cbv beta in Hg.
+  destruct (subtree_max (fuel_of Q) Q n s d) as [my|] eqn:Hmy; [|done].
+  destruct (nearest_cap (fuel_of Q) Q (qparent s) d) as [r|] eqn:Hnc; [|done].
+  rewrite (nearest_cap_sound Q d Hv _ _ Hn _ _ Hnc) in Hg.
+  case_bool_decide as Hlt; [done|].
+  unfold fuel_of in Hmy. simpl in Hmy. rewrite rget_cap in Hmy by done.
+  rewrite bool_decide_eq_false_2 in Hmy by done.
+  apply (foldr_opt_max_ge (fun c0 : positive * qspec => subtree_max (size Q) Q (fst c0) (snd c0) d)) in Hmy as [_ Hge].
+  destruct (Hge (k, sk)) as (m' & Hm' & Hle); [by apply elem_children|]. cbn [fst snd] in Hm'.
+  pose proof (subtree_max_ge Q d Hv k x Hf _ _ _ Hk Hm'). lia.
+Qed.
+
 Lemma nearest_top_none Q d par v : is_top par = true -> ~ nearest Q d par v.
 Proof.
   intros Ht H. inversion H; subst; apply is_top_some in Ht; done.
 Qed.
 
-(* an UPDATE that moves a queue which has children *)
-Definition moves_subtree (Q : queues) (r : req) : Prop :=
-  match r with
-  | Update n s => exists o, Q !! n = Some o /\ qparent o <> qparent s /\ children_of Q n <> []
-  | _ => False
-  end.
-
 Lemma cu_cap c Q n s s2 old :
   Q !! n = old -> admit_cu c Q n s old = VAllowed ->
   qparent s2 = qparent s -> qcap s2 = qcap s ->
-  (forall o, old = Some o -> qparent o = qparent s \/ children_of Q n = []) ->
-  ShapeInv c Q -> ShapeInv c (<[n := s2]> Q) -> CapInv Q -> CapInv (<[n := s2]> Q).
+  ShapeInv c (<[n := s2]> Q) -> CapInv Q -> CapInv (<[n := s2]> Q).
 Proof.
-  intros Hold Hadm Hp2 Hc2 Hmove Hsh Hsh' Hinv.
+  intros Hold Hadm Hp2 Hc2 Hsh' Hinv.
   apply admit_cu_allowed in Hadm as (_ & _ & Hres).
   destruct (decide (n = root)) as [->|Hnr].
   { intros x sx d v Hx Hxr Hv Hpos Hnear. rewrite lookup_insert_ne in Hx by done.
@@ -1233,17 +1279,24 @@ Proof.
     destruct Hsr as [[? ?] ?]. done. }
   2:{ eapply cap_agree; eauto; congruence. }
   apply validate_resources_allowed in Hval as [Hpar Hkids].
-  apply (cap_insert c); try done.
-  - intros o Ho. rewrite Hold in Ho. rewrite Hp2. by apply Hmove.
-  - intros d v Hv Hpos Hnear. unfold capd in *. rewrite Hc2 in *. rewrite Hp2 in Hnear.
-    destruct (qparent s) as [p|] eqn:Hp; [|by apply nearest_top_none in Hnear].
+  assert (forall d v, nearest Q d (qparent s) v ->
+            exists p, qparent s = Some p /\ p <> root /\ child_vs_ancestor Q n s = VAllowed) as Hcva.
+  { intros d v Hnear. destruct (qparent s) as [p|] eqn:Hp; [|by apply nearest_top_none in Hnear].
     destruct (decide (p = root)) as [->|Hpr]; [apply nearest_top_none in Hnear; [done|by apply is_top_some]|].
-    destruct (Hpar p eq_refl Hpr) as (ps & _ & Hcva & _).
-    apply (child_vs_ancestor_allowed Q s d v); try done. by rewrite Hp.
+    destruct (Hpar p eq_refl Hpr) as (ps & _ & H & _). eauto. }
+  apply (cap_insert c); try done.
+  - intros d v Hv Hpos Hnear. unfold capd in *. rewrite Hc2 in *. rewrite Hp2 in Hnear.
+    destruct (Hcva d v Hnear) as (p & _ & _ & H). unfold child_vs_ancestor in H.
+    destruct (child_vs_ancestor_own Q s) eqn:Hown; try done.
+    by apply (child_own_allowed Q s d v).
   - intros d x Hv Hpos (k & sk & Hk & Hpk & Hf). unfold capd in Hpos |- *. rewrite Hc2 in *.
     assert ((k, sk) ∈ children_of Q n) as Hin by by apply elem_children.
     destruct Hkids as [Hnil|[_ Hkids]]; [rewrite Hnil in Hin; by apply elem_of_nil in Hin|].
     eapply children_cap_allowed; eauto.
+  - intros d x v Hv Hnpos (k & sk & Hk & Hpk & Hf) Hnear. unfold capd in Hnpos. rewrite Hc2 in Hnpos.
+    rewrite Hp2 in Hnear. destruct (Hcva d v Hnear) as (p & _ & _ & H). unfold child_vs_ancestor in H.
+    destruct (child_vs_ancestor_own Q s) eqn:Hown; try done.
+    by apply (child_desc_allowed Q n s d x v k sk).
 Qed.
 
 Lemma cap_delete Q n : CapInv Q -> CapInv (delete n Q).
@@ -1255,21 +1308,17 @@ Proof.
 Qed.
 
 Theorem cap_step c Q r :
-  1 <= max_depth c -> ShapeInv c Q -> CapInv Q -> ~ moves_subtree Q r ->
-  CapInv (apply_if_admitted c Q r).
+  1 <= max_depth c -> ShapeInv c Q -> CapInv Q -> CapInv (apply_if_admitted c Q r).
 Proof.
-  intros Hmax Hshape Hinv Hmv.
+  intros Hmax Hshape Hinv.
   pose proof (shape_step c Q r Hmax Hshape) as Hshape'.
   unfold apply_if_admitted in *.
   destruct (allowed (verdict_of c Q r)) eqn:Hv; [|done]. apply allowed_eq in Hv.
   destruct r as [n s|n s|n|n a]; simpl in *.
   - destruct (Q !! n) as [o|] eqn:Hn; [done|].
-    eapply (cu_cap c Q n s (with_alloc 0 s) None); eauto. intros o Ho. done.
+    eapply (cu_cap c Q n s (with_alloc 0 s) None); eauto.
   - destruct (Q !! n) as [o|] eqn:Hn; [|done].
     eapply (cu_cap c Q n s (with_alloc (qalloc o) s) (Some o)); eauto.
-    intros o' Ho'. inversion Ho'; subst o'.
-    destruct (decide (qparent o = qparent s)); [by left|right].
-    destruct (children_of Q n) eqn:E; [done|]. exfalso. apply Hmv. exists o. done.
   - by apply cap_delete.
   - destruct (Q !! n) as [o|] eqn:Hn; [|done]. eapply cap_agree; eauto.
 Qed.
@@ -1298,6 +1347,35 @@ Proof.
   rewrite (nearest_anc_sound Q d _ _ Hnear _ _ Hu) in H. by apply bool_decide_eq_true in H.
 Qed.
 
+(* ================= the invariant along histories ================= *)
+
+Definition TreeInv (c : cfg) (Q : queues) : Prop :=
+  ShapeInv c Q /\ PerQueueInv Q /\ SumInv Q /\ CapInv Q.
+
+Lemma tree_step c Q r :
+  1 <= max_depth c -> TreeInv c Q -> TreeInv c (apply_if_admitted c Q r).
+Proof.
+  intros Hmax (Hs & Hp & Hsum & Hcap). split; [|split; [|split]].
+  - by apply shape_step.
+  - by apply per_queue_step.
+  - by apply sum_step.
+  - by apply cap_step.
+Qed.
+
+Theorem tree_history c rs : forall Q0,
+  1 <= max_depth c -> TreeInv c Q0 -> TreeInv c (run_history c Q0 rs).
+Proof.
+  unfold run_history. induction rs as [|r rs IH]; intros Q0 Hmax H0; simpl; [done|].
+  apply IH; [done|]. by apply tree_step.
+Qed.
+
+Lemma tree_okb_sound c Q : tree_okb c Q = true -> TreeInv c Q.
+Proof.
+  unfold tree_okb. rewrite !andb_true_iff. intros [[[Hs Hp] Hsum] Hcap].
+  split; [by apply shape_okb_sound|]. split; [by apply per_okb_sound|].
+  split; [by apply sums_okb_sound|by apply caps_okb_sound].
+Qed.
+
 (* ================= non-vacuity and the record of the defects ================= *)
 
 Definition cpu_l (v : Z) : list (positive * Z) := [(cpu_d, v)].
@@ -1312,8 +1390,8 @@ Definition ex_Q : queues :=
                (4, q_ (Some 3) (cpu_l 4000%Z) (cpu_l 3000%Z) (cpu_l 2000%Z));
                (5, q_ (Some 4) [] (cpu_l 1000%Z) (cpu_l 1000%Z))]%positive.
 
-Example ex_tree_inv : TreeInv ex_cfg ex_Q /\ CapInv ex_Q.
-Proof. split; [apply tree_okb_sound|apply caps_okb_sound]; by vm_compute. Qed.
+Example ex_tree_inv : TreeInv ex_cfg ex_Q.
+Proof. apply tree_okb_sound. by vm_compute. Qed.
 
 (* a history over it in which requests of every kind are admitted and others are refused *)
 Definition ex_history : list req :=
@@ -1321,15 +1399,17 @@ Definition ex_history : list req :=
    Create 7 (q_ (Some 3) [] (cpu_l 1000%Z) (cpu_l 1000%Z));              (* refused: guarantee sum 5000 > 4000 *)
    Update 5 (q_ (Some 6) [] (cpu_l 1000%Z) (cpu_l 1000%Z));              (* re-parent the leaf 5 under 6 *)
    Update 3 (q_ (Some 5) (cpu_l 8000%Z) (cpu_l 6000%Z) (cpu_l 4000%Z));     (* refused: under its own descendant *)
+   Update 1 (q_ (Some 3) [] [] []);                                 (* refused: root cannot have a parent *)
+   Create 8 (q_ (Some 2) [] [] []);                                 (* a queue without capability under default *)
+   Create 9 (q_ (Some 8) (cpu_l 3000%Z) [] []);                        (* ... with a child of capability 3000 *)
+   Update 8 (q_ (Some 6) [] [] []);                                 (* refused: 9 would end under 6 (2000) *)
    Delete 4;                                                        (* 4 has no children any more *)
    Delete 3]%positive.                                              (* refused: 3 has children *)
 
 Example ex_history_verdicts :
-  verdicts ex_cfg ex_Q ex_history = [VAllowed; VSiblingSum; VAllowed; VCycle; VAllowed; VDelChildren].
+  verdicts ex_cfg ex_Q ex_history =
+  [VAllowed; VSiblingSum; VAllowed; VCycle; VRootParent; VAllowed; VAllowed; VCapAncestor; VAllowed; VDelChildren].
 Proof. by vm_compute. Qed.
-
-Example ex_history_wf : Forall req_wf ex_history.
-Proof. repeat constructor; simpl; done. Qed.
 
 (* F3, first half: the validation as it was before the fix admits a.parent := c on
    root <- a <- b <- c, and the result is not a tree *)
@@ -1380,25 +1460,20 @@ Example postfix_depth_rejected :
   validate_hier f3b_cfg f3b_Q 3%positive (q_ (Some 7%positive) [] [] []) = VSubtreeDepth.
 Proof. by vm_compute. Qed.
 
-(* still open (known finding C10-reparent-subtree-capability): an admitted re-parenting of a
-   queue with children can put a descendant under an ancestor with a smaller capability *)
+(* the second defect, repaired by the second fix: validateChildAgainstAncestor with its first
+   loop only admits a re-parenting that puts a descendant under an ancestor with a smaller capability *)
 Definition capx_Q : queues :=
   list_to_map [(1, q_ None [] [] []); (3, q_ (Some 1) (cpu_l 100000%Z) [] []); (4, q_ (Some 3) [] [] []);
                (5, q_ (Some 4) (cpu_l 50000%Z) [] []); (6, q_ (Some 1) (cpu_l 10000%Z) [] [])]%positive.
-Definition capx_req : req := Update 4%positive (q_ (Some 6%positive) [] [] []).
 
-Theorem cap_reparent_refuted :
-  exists c Q r, TreeInv c Q /\ CapInv Q /\ 1 <= max_depth c /\ req_wf r /\ moves_subtree Q r /\
-                verdict_of c Q r = VAllowed /\ ~ CapInv (apply_if_admitted c Q r).
+Theorem precap_reparent_refuted :
+  exists c Q n s o, TreeInv c Q /\ 1 <= max_depth c /\ Q !! n = Some o /\
+                    admit_cu_precap c Q n s (Some o) = VAllowed /\ ~ CapInv (<[n := s]> Q).
 Proof.
-  exists ex_cfg, capx_Q, capx_req.
-  split; [apply tree_okb_sound; by vm_compute|]. split; [apply caps_okb_sound; by vm_compute|].
-  split; [done|]. split; [done|]. split.
-  { exists (q_ (Some 3%positive) [] [] []). split; [by vm_compute|]. split; [done|by vm_compute]. }
+  exists ex_cfg, capx_Q, 4%positive, (q_ (Some 6%positive) [] [] []), (q_ (Some 3%positive) [] [] []).
+  split; [apply tree_okb_sound; by vm_compute|]. split; [done|]. split; [by vm_compute|].
   split; [by vm_compute|].
   intros H.
-  assert (apply_if_admitted ex_cfg capx_Q capx_req = <[4%positive := q_ (Some 6%positive) [] [] []]> capx_Q) as E by by vm_compute.
-  rewrite E in H.
   specialize (H 5%positive (q_ (Some 4%positive) (cpu_l 50000) [] []) 2%positive 10000).
   assert (50000 <= 10000) as Habs; [|lia].
   apply H; [by vm_compute|done|done|by vm_compute|].
@@ -1406,3 +1481,12 @@ Proof.
   change 10000 with (capd (q_ (Some 1%positive) (cpu_l 10000) [] []) 2%positive).
   eapply (nearest_here _ _ 6%positive); [done|by vm_compute|by vm_compute].
 Qed.
+
+Example postfix_capability_rejected :
+  admit_cu ex_cfg capx_Q 4%positive (q_ (Some 6%positive) [] [] []) (Some (q_ (Some 3%positive) [] [] [])) = VCapAncestor.
+Proof. by vm_compute. Qed.
+
+(* the third defect, repaired by the third fix: the root queue could be given a parent *)
+Example root_parent_rejected :
+  validate_hier ex_cfg ex_Q root (q_ (Some 3%positive) [] [] []) = VRootParent.
+Proof. by vm_compute. Qed.
